@@ -39,7 +39,15 @@ def run_lines(exe, lines, timeout=600, env=None, per_line_timeout=None, stall=No
     while i < n:
         chunk = lines[i:]
         data = ("\n".join(chunk) + "\n").encode()
-        p = subprocess.Popen([exe], stdin=subprocess.PIPE, stdout=subprocess.PIPE, stderr=subprocess.PIPE, env=env)
+        for _attempt in range(60):
+            # the model driver is replaced on disk while `lake build` relinks it (a concurrent run of another check)
+            try:
+                p = subprocess.Popen([exe], stdin=subprocess.PIPE, stdout=subprocess.PIPE, stderr=subprocess.PIPE, env=env)
+                break
+            except (FileNotFoundError, PermissionError, OSError):
+                if _attempt == 59:
+                    raise
+                time.sleep(1)
         q = _q.Queue()
         errbuf = []
 
